@@ -221,6 +221,15 @@ S8B(p, k) ==
       \* encoding a RaptorQ block of 56403 symbols takes minutes: such objects are only added
       ops |-> << <<"add", 1>>, <<"publish">> >> \o (IF sc = 6 THEN <<>> ELSE << <<"readn", 4>> >>) ]
 
+\* S10: every partition shape: T = 1..14 source symbols, B = 1..5, last symbol full or one byte short, from a buffer and
+\* from a stream: the blocks the sender really cuts (SBN, ESI, source block length, byte offsets) against RFC 5052
+S10P == (1..14) \X (1..5) \X {0, 1} \X {0, 129, 5} \X {"buffer", "stream"}
+S10B(p, k) ==
+    [ fam |-> "S10",
+      cfg |-> [scheme |-> 0, E |-> BigE, B |-> 8, interleave |-> 2, queues |-> << <<0, 1>> >>],
+      objs |-> << [clen |-> p[1] * 4 - p[3], src |-> p[5], oti |-> Oti(p[4], 4, p[2], IF p[4] = 0 THEN 0 ELSE 1, TRUE)] >>,
+      ops |-> << <<"add", 1>>, <<"publish">>, <<"drain">> >> ]
+
 \* S9: trigger_transfer_at under contention: three objects with several transfers each share one queue with fewer slots,
 \* so that an object is idle BETWEEN two of its own transfers; the trigger hits object p[4] after k reads
 S9P == {1, 2} \X {2, 3} \X { <<"none", 0>>, <<"delay", 2>> } \X {1, 2} \X {-1, 0}
@@ -239,12 +248,12 @@ S9B(p, k) ==
 (* The parameter spaces are cartesian products (enumerated lazily by TLC, no set of big records is   *)
 (* ever built); the dependent parameter k is a second variable.                                      *)
 Params == CASE Family = "S1" -> S1P [] Family = "S3" -> S3P [] Family = "S4" -> S4P [] Family = "S4x" -> S4xP
-            [] Family = "S5" -> S5P [] Family = "S2" -> S2Cfgs [] Family = "S7" -> S7P [] Family = "S7b" -> S7bP [] Family = "S6" -> S6P [] Family = "S6b" -> S6bP [] Family = "S8" -> S8P [] Family = "S9" -> S9P [] OTHER -> {}
+            [] Family = "S5" -> S5P [] Family = "S2" -> S2Cfgs [] Family = "S7" -> S7P [] Family = "S7b" -> S7bP [] Family = "S6" -> S6P [] Family = "S6b" -> S6bP [] Family = "S8" -> S8P [] Family = "S9" -> S9P [] Family = "S10" -> S10P [] OTHER -> {}
 KRange(p) == CASE Family = "S1" -> S1K(p) [] Family = "S3" -> S3K(p) [] Family = "S4" -> S4K(p)
                [] Family = "S5" -> S5K(p) [] Family = "S9" -> S9K(p) [] Family = "S7" -> S7K(p) [] Family = "S7b" -> {1, 3, 1000} [] OTHER -> {0}
 Build(p, k) == CASE Family = "S1" -> S1B(p, k) [] Family = "S3" -> S3B(p, k) [] Family = "S4" -> S4B(p, k)
                  [] Family = "S4x" -> S4xB(p, k) [] Family = "S5" -> S5B(p, k) [] Family = "S7" -> S7B(p, k)
-                 [] Family = "S7b" -> S7bB(p, k) [] Family = "S6" -> S6B(p, k) [] Family = "S6b" -> S6bB(p, k) [] Family = "S8" -> S8B(p, k) [] Family = "S9" -> S9B(p, k)
+                 [] Family = "S7b" -> S7bB(p, k) [] Family = "S6" -> S6B(p, k) [] Family = "S6b" -> S6bB(p, k) [] Family = "S8" -> S8B(p, k) [] Family = "S9" -> S9B(p, k) [] Family = "S10" -> S10B(p, k)
 
 VARIABLES b, k, h
 Init == b \in Params /\ k \in KRange(b) /\ h = <<>>
